@@ -161,7 +161,9 @@ impl Prop for PPrintf {
                         }
                         // mostly column widths as people write them; now and then a wide column (the padding is written
                         // in pieces: a value of 1..8 characters in 64, 65.., 128.., 192.. columns meets every remainder)
-                        let w = if rng.chance(1, 4) { *rng.pick(&[64usize, 128, 192, 256]) + rng.below(9) } else { 1 + rng.below(25) };
+                        // ... and, rarely, a column wider than any integer type a formatting routine might keep the width in
+                        let w = if idx % 40 == 21 && rng.chance(1, 2) { *rng.pick(&[65535usize, 65536, 65537, 70000, 131072, 200000]) }
+                                else if rng.chance(1, 4) { *rng.pick(&[64usize, 128, 192, 256]) + rng.below(9) } else { 1 + rng.below(25) };
                         fmt.extend(format!("{}", w).chars().map(|c| c as u32));
                     }
                     fmt.push(rng.pick(&dirs).chars().next().unwrap() as u32);
@@ -182,6 +184,12 @@ impl Prop for PPrintf {
             }
         }
         fmt.extend([92, 110]);
+        // a very wide column: the starting points alone are enough (the output is that many bytes per entry)
+        let digits = fmt.iter().fold((0usize, 0usize), |(run, best), c| if (48..=57).contains(c) { (run + 1, best.max(run + 1)) } else { (0, best) }).1;
+        if digits >= 5 {
+            v["cfg"]["min"] = json!(0);
+            v["cfg"]["max"] = json!(0);
+        }
         v["fmt"] = json!(fmt);
         v
     }
